@@ -359,11 +359,15 @@ def run_api_op(kind, op, op_index, solver, sc, h, recog: Recognizer, world, reco
         # the one the verdict `sat` was computed for: judged only if the tree itself
         # was passed, or the string has one parse)
         if base_kind == "repair" and sat is True and (unambiguous or arg is ref_tree):
-            if out_str != inp_str:
-                v("repair_changes_valid_input", f"repair({inp_str!r}) -> {out_str!r} although the input already satisfies the constraint")
-            else:
+            if out_str == inp_str:
                 bump("api_repair_identity")
-            return
+                return
+            if not z3_trouble():
+                v("repair_changes_valid_input", f"repair({inp_str!r}) -> {out_str!r} although the input already satisfies the constraint")
+                return
+            # a Z3 query inside this call was not decided: repair() could not establish
+            # that the input is valid already; what it returns instead must still be valid
+            bump("api_repair_changed_valid_input_under_z3_trouble")
         m = to_model(out_tree)
         pv = None if not is_closed(m) else validate_tree(m, grammar, "<start>")
         if not is_closed(m) or pv:
